@@ -215,8 +215,8 @@ Section Sim.
               do ck <- check m (0 <? n) E_NEGCOUNT;
               if n <? 0 then Ok (Normal, st1)
               else
-                do ck <- check m (s_time st =? ts) E_TIMERESET;
-                do st' <- run_iter L f m t b ts te (LKCount n) (set_time L ts st1);
+                do st2 <- fall L m ts (s_time st) st1;
+                do st' <- run_iter L f m t b ts te (LKCount n) st2;
                 Ok (Normal, st')
         | STimes _ (Some v) count b =>
             do ts <- expect_time (start_time L b t);
@@ -226,8 +226,8 @@ Section Sim.
             let st1 := set_regs L (wr L v n (snd zr)) (set_time L te st) in
             if n =? 0 then Ok (Normal, st1)
             else
-              do ck <- check m (s_time st =? ts) E_TIMERESET;
-              do st' <- run_iter L f m t b ts te (LKClobber v) (set_time L ts st1);
+              do st2 <- fall L m ts (s_time st) st1;
+              do st' <- run_iter L f m t b ts te (LKClobber v) st2;
               Ok (Normal, st')
         end.
   Proof. reflexivity. Qed.
@@ -238,14 +238,17 @@ Section Sim.
         let st1 := snd bs in
         if Bool.eqb (fst bs) (is_if k) then
           do ts <- expect_time (start_time L b t);
-          do ck <- check m (negb first || (s_time st1 =? ts)) E_TIMERESET;
-          do r <- run_block L f m t b (set_time L ts st1);
+          do st2 <- (if first then fall L m ts (s_time st1) st1 else Ok (set_time L ts st1));
+          do r <- run_block L f m t b st2;
           match fst r with
           | Break => Ok (Break, snd r)
           | Normal =>
               do te <- expect_time (chain_end_time L rest b t);
-              do ck <- check m (match rest with CEnd => s_time (snd r) =? te | _ => true end) E_TIMERESET;
-              Ok (Normal, set_time L te (snd r))
+              do st' <- match rest with
+                        | CEnd => fall L m te (s_time (snd r)) (snd r)
+                        | _ => Ok (set_time L te (snd r))
+                        end;
+              Ok (Normal, st')
           end
         else
           match rest with
@@ -258,8 +261,8 @@ Section Sim.
               | Break => Ok (Break, snd r)
               | Normal =>
                   do te <- expect_time (end_time L eb t1);
-                  do ck <- check m (s_time (snd r) =? te) E_TIMERESET;
-                  Ok (Normal, set_time L te (snd r))
+                  do st' <- fall L m te (s_time (snd r)) (snd r);
+                  Ok (Normal, st')
               end
           | CElif k' c' b' rest' => run_chain L f m (block_after L b t) false k' c' b' rest' st1
           end.
@@ -285,7 +288,7 @@ Section Sim.
                   let st2 := set_regs L (wr L v (x - 1) (s_regs st1)) st1 in
                   if x - 1 =? 0 then Ok st2
                   else
-                    do ck <- check m (match m with Strict PredecGtZero => 0 <? x - 1 | _ => true end) E_NEGCOUNTER;
+                    do ck <- check m (match m with Strict _ PredecGtZero => 0 <? x - 1 | _ => true end) E_NEGCOUNTER;
                     run_iter L f m t b ts te lk (set_time L ts st2)
                 else Panic P_OVERFLOW
             end
@@ -300,10 +303,22 @@ Section Sim.
   Qed.
 
   (* ---- the simulation ---- *)
+  Variable tg : bool.
   Variable fl : flavour.
   Hypothesis H_const : forall e n r, const_int L e = Some n -> eval_int L e r = Ok (n, r).
   Hypothesis H_i32 : forall e r z r', eval_int L e r = Ok (z, r') -> in_i32 z.
   Hypothesis H_rw : forall v z r, in_i32 z -> rd L v (wr L v z r) = Ok z.
+
+  (* at a fall-through point the guarded nested run continues from the state the flat run has *)
+  Lemma fall_sim t tn (st st' : state L) :
+    fall L (Strict tg fl) t tn st = Ok st' -> st' = set_time L tn st.
+  Proof.
+    unfold fall. destruct tg.
+    - destruct (tn =? t) eqn:E; [|discriminate]. apply Z.eqb_eq in E. subst. intros H; inversion H; auto.
+    - intros H; inversion H; auto.
+  Qed.
+  Lemma set_time_self (st : state L) : set_time L (s_time st) st = st.
+  Proof. destruct st; reflexivity. Qed.
 
   Definition tm_agree (g : nat) (tm tm' : temps) : Prop :=
     forall n, (n < g)%nat -> tget n tm' = tget n tm.
@@ -338,14 +353,14 @@ Section Sim.
 
   Definition P_block (f : nat) : Prop :=
     forall t b st r st' g cur env rest tm tb cb,
-      run_block L f (Strict fl) t b st = Ok (r, st') -> wf_stmts L cur b = true ->
+      run_block L f (Strict tg fl) t b st = Ok (r, st') -> wf_stmts L cur b = true ->
       env_ok env t (fst (desugar_stmts L fl b g)) rest -> benv env cur tb cb ->
       exists tm', tm_agree g tm tm' /\
         target env r t (fst (desugar_stmts L fl b g) ++ rest) st tm (block_after L b t) rest st' tm' tb cb.
 
   Definition P_stmt (f : nat) : Prop :=
     forall t s st r st' g cur env rest tm tb cb,
-      run_stmt L f (Strict fl) t s st = Ok (r, st') -> wf_stmt L cur s = true ->
+      run_stmt L f (Strict tg fl) t s st = Ok (r, st') -> wf_stmt L cur s = true ->
       stmt_time L s t <= s_time st ->
       env_ok env t (fst (desugar_stmt L fl s g)) rest -> benv env cur tb cb ->
       exists tm', tm_agree g tm tm' /\
@@ -377,7 +392,7 @@ Section Sim.
   (* a block with its scope ends, given the lemma for its statements *)
   Lemma block_scope f : P_block f ->
     forall t b st r st' g cur env rest tm tb cb,
-      run_block L f (Strict fl) t b st = Ok (r, st') -> bookended L b = true -> wf_stmts L cur b = true ->
+      run_block L f (Strict tg fl) t b st = Ok (r, st') -> bookended L b = true -> wf_stmts L cur b = true ->
       env_ok env t (fst (desugar_block L fl b g)) rest -> benv env cur tb cb ->
       exists tm', tm_agree g tm tm' /\
         target env r t (fst (desugar_block L fl b g) ++ rest) st tm (block_after L b t) rest st' tm' tb cb.
@@ -452,7 +467,7 @@ Section Sim.
 
   Definition P_iter (f : nat) : Prop :=
     forall t b lk st st' gb g0 id env tail cend tm lbl back,
-      run_iter L f (Strict fl) t b t (block_after L b t) lk st = Ok st' ->
+      run_iter L f (Strict tg fl) t b t (block_after L b t) lk st = Ok st' ->
       bookended L b = true -> wf_stmts L (Some id) b = true ->
       env lbl = Some (t, fst (desugar_block L fl b gb) ++ back :: tail ++ cend) ->
       env_ok env t (fst (desugar_block L fl b gb)) (back :: tail ++ cend) ->
@@ -580,7 +595,7 @@ Section Sim.
 
   Definition P_chain (f : nat) : Prop :=
     forall t first k c b rc st r st' gs cur env rest0 tm tb cb ve,
-      run_chain L f (Strict fl) t first k c b rc st = Ok (r, st') ->
+      run_chain L f (Strict tg fl) t first k c b rc st = Ok (r, st') ->
       bookended L b = true -> wf_stmts L cur b = true -> wf_chain L cur rc = true ->
       (first = true -> t <= s_time st) ->
       env_ok env t (chain_code k c gs b ve rc) (FLabel ve :: rest0) ->
@@ -620,31 +635,38 @@ Section Sim.
     destruct (Bool.eqb bv (is_if k)) eqn:TK.
     - (* this block runs *)
       rewrite (start_time_nop _ _ FN) in R. cbn [expect_time obind] in R.
-      inv_bind R ck CK. unfold check in CK.
+      inv_bind R st1s FL.
+      assert (SAME : st1s = st1f).
+      { unfold st1f. destruct first.
+        - apply fall_sim in FL. rewrite set_time_self in FL. exact FL.
+        - inversion FL; auto. }
+      subst st1s.
       inv_bind R rs RB. destruct rs as [r1 st2]. cbn [fst snd] in R.
-      assert (SAME : st1f = set_time L t st1).
-      { unfold st1f. destruct first; auto. cbn [negb orb] in CK.
-        destruct (s_time st1 =? t) eqn:E; [|discriminate]. apply Z.eqb_eq in E. symmetry. apply set_time_same; auto. }
       destruct (block_scope f PB t b _ r1 st2 (S gs) cur env _ tm tb cb RB BK WF E1l BE) as (tm1 & A1 & T1).
       fold cbk in T1. rewrite <- ?app_assoc in T1. cbn [app] in T1.
       assert (FALL : reaches env t (FCondGoto (negate k) (CExpr c) skip :: cbk ++ jump_over L ve rc ++ FLabel skip :: cr ++ FLabel ve :: rest0)
-                       (stf, tm) t (cbk ++ jump_over L ve rc ++ FLabel skip :: cr ++ FLabel ve :: rest0) (set_time L t st1, tm)).
-      { rewrite <- SAME. eapply step_cond_fall; eauto. apply eval_fcond_expr; eauto.
+                       (stf, tm) t (cbk ++ jump_over L ve rc ++ FLabel skip :: cr ++ FLabel ve :: rest0) (st1f, tm)).
+      { eapply step_cond_fall; eauto. apply eval_fcond_expr; eauto.
         rewrite is_if_negate, eqb_negb, TK. reflexivity. }
       destruct r1; cbn [target] in T1.
       + rewrite (chain_end_time_wf cur rc b t BK WFC) in R. cbn [expect_time obind] in R. fold tb1 in R.
-        inv_bind R ck2 CK2. unfold check in CK2. inversion R; subst r st'. clear R.
-        exists tm1. split. eapply tm_agree_weaken; [|exact A1]. lia.
-        cbn [target]. eapply reaches_trans; [exact FALL|]. eapply reaches_trans; [exact T1|].
+        inv_bind R st3 FL2.
         assert (TG : tb1 <= s_time st2) by (eapply run_block_time_ge; eauto).
         destruct rc as [|eb|k' c' b' rc'].
-        * unfold cr. dsg. cbn [fst jump_over app].
-          change (chain_after L CEnd tb1) with tb1 in *. cbv beta iota in CK2.
-          destruct (s_time st2 =? tb1) eqn:E; [|discriminate]. apply Z.eqb_eq in E.
-          rewrite (set_time_same _ _ E).
+        * change (chain_after L CEnd tb1) with tb1 in *.
+          apply fall_sim in FL2. rewrite set_time_self in FL2. subst st3. inversion R; subst r st'. clear R.
+          exists tm1. split. eapply tm_agree_weaken; [|exact A1]. lia.
+          cbn [target]. eapply reaches_trans; [exact FALL|]. eapply reaches_trans; [exact T1|].
+          unfold cr. dsg. cbn [fst jump_over app].
           apply (step_nops env tb1 [FLabel skip; FLabel ve]); auto. repeat constructor.
-        * cbn [jump_over app]. apply step_goto; auto.
-        * cbn [jump_over app]. apply step_goto; auto.
+        * inversion FL2; subst st3. inversion R; subst r st'. clear R.
+          exists tm1. split. eapply tm_agree_weaken; [|exact A1]. lia.
+          cbn [target]. eapply reaches_trans; [exact FALL|]. eapply reaches_trans; [exact T1|].
+          cbn [jump_over app]. apply step_goto; auto.
+        * inversion FL2; subst st3. inversion R; subst r st'. clear R.
+          exists tm1. split. eapply tm_agree_weaken; [|exact A1]. lia.
+          cbn [target]. eapply reaches_trans; [exact FALL|]. eapply reaches_trans; [exact T1|].
+          cbn [jump_over app]. apply step_goto; auto.
       + inversion R; subst r st'. exists tm1. split. eapply tm_agree_weaken; [|exact A1]. lia.
         cbn [target]. eapply reaches_trans; [exact FALL|exact T1].
     - (* this block is skipped *)
@@ -669,11 +691,10 @@ Section Sim.
         change (chain_after L (CElse eb) tb1) with (block_after L eb tb1).
         destruct r1; cbn [target] in T1.
         * rewrite (end_time_nop _ _ LNe) in R. cbn [expect_time obind] in R.
-          inv_bind R ck2 CK2. unfold check in CK2. inversion R; subst r st'.
-          destruct (s_time st2 =? block_after L eb tb1) eqn:E; [|discriminate]. apply Z.eqb_eq in E.
-          rewrite (set_time_same _ _ E). cbn [target].
+          inv_bind R st3 FL2. apply fall_sim in FL2. rewrite set_time_self in FL2. subst st3. inversion R; subst r st'.
+          cbn [target].
           eapply reaches_trans; [exact JMP|]. eapply reaches_trans; [exact T1|].
-          apply step_nop. exact I. lia.
+          apply step_nop. exact I. eapply run_block_time_ge; eauto.
         * inversion R; subst r st'. cbn [target]. eapply reaches_trans; [exact JMP|exact T1].
       + rewrite wf_CElif in WFC. apply andb_prop in WFC. destruct WFC as [WFC WFr]. apply andb_prop in WFC. destruct WFC as [BKe WFe].
         fold tb1 in R.
@@ -708,7 +729,7 @@ Section Sim.
 
   Lemma loop_entry f : P_iter f ->
     forall t b lk st st' gb g0 id env tail cend tm lbl back,
-      run_iter L f (Strict fl) t b t (block_after L b t) lk st = Ok st' ->
+      run_iter L f (Strict tg fl) t b t (block_after L b t) lk st = Ok st' ->
       bookended L b = true -> wf_stmts L (Some id) b = true ->
       env_ok env t (FLabel lbl :: fst (desugar_block L fl b gb) ++ back :: tail ++ [FLabel (LLoopEnd id)]) cend ->
       Forall is_nop tail -> (g0 <= gb)%nat -> back_ok lk back lbl tm g0 gb -> t <= s_time st ->
@@ -864,10 +885,10 @@ Section Sim.
           cbn [eval_fcond rd_f fst]. rewrite RDV. cbn [obind]. rewrite N0. reflexivity.
           cbn [fst snd app]. apply step_nop. exact I. cbn. lia.
         * apply Z.eqb_neq in N0.
-          inv_bind R ck CK. unfold check in CK. destruct (s_time st =? t) eqn:TE; [|discriminate]. apply Z.eqb_eq in TE.
+          inv_bind R st1s FL. apply fall_sim in FL. subst st1s.
           inv_bind R st2 RI. inversion R; subst r st'. cbn [target].
-          assert (SAME : set_time L t (set_regs L (wr L v n r1) (set_time L te st)) = set_regs L (wr L v n r1) st).
-          { destruct st; cbn in *; subst; reflexivity. }
+          assert (SAME : set_time L (s_time st) (set_regs L (wr L v n r1) (set_time L te st)) = set_regs L (wr L v n r1) st).
+          { destruct st; reflexivity. }
           rewrite SAME in RI.
           destruct (loop_entry f PI t b (LKClobber v) _ st2 (S (S g)) g id env [FLabel (LTimesZero g)] rest tm (LLoop (S g)) back RI BK WFb E2
                   ltac:(repeat constructor) ltac:(lia) eq_refl ltac:(cbn; lia)) as (tm' & A & T).
@@ -914,10 +935,10 @@ Section Sim.
         * apply Z.eqb_neq in N0.
           inv_bind R ck CK. unfold check in CK. destruct (0 <? n) eqn:NP; [|discriminate]. apply Z.ltb_lt in NP.
           destruct (n <? 0) eqn:NN; [apply Z.ltb_lt in NN; lia|].
-          inv_bind R ck2 CK2. unfold check in CK2. destruct (s_time st =? t) eqn:TE; [|discriminate]. apply Z.eqb_eq in TE.
+          inv_bind R st1s FL. apply fall_sim in FL. subst st1s.
           inv_bind R st2 RI. inversion R; subst r st'. cbn [target].
-          assert (SAME : set_time L t (set_regs L r1 (set_time L te st)) = set_regs L r1 st).
-          { destruct st; cbn in *; subst; reflexivity. }
+          assert (SAME : set_time L (s_time st) (set_regs L r1 (set_time L te st)) = set_regs L r1 st).
+          { destruct st; reflexivity. }
           rewrite SAME in RI.
           assert (BO : back_ok (LKCount n) back (LLoop (S (S g))) (tset g n tm) g (S (S (S g)))).
           { exists g. repeat split; auto; try lia. unfold in_i32 in NR. lia. }
@@ -945,7 +966,7 @@ Section Sim.
   (* ---- the theorem ---- *)
   Theorem desugar_correct_strict p st fuel st' :
     wf_prog L p = true ->
-    run_struct L fuel (Strict fl) p st = Ok st' ->
+    run_struct L fuel (Strict tg fl) p st = Ok st' ->
     exists fuel' tm', run_flat L fuel' (desugar L fl p) st = Ok (st', tm').
   Proof.
     intros WF R. unfold wf_prog, wf_block in WF.
@@ -964,31 +985,42 @@ Section Sim.
   Qed.
 End Sim.
 
-(* ---- Strict runs are AstVm runs ---- *)
+(* ---- Strict runs are AstVm runs (of vm.rs as found and of the patched vm.rs alike) ---- *)
 Section StrictLax.
   Variable L : lang.
   Variable fl : flavour.
+  Variables tg tr : bool.
+  (* with the time guard: either variant of AstVm; without it: the one that makes no such assignment *)
+  Hypothesis compatible : tg = true \/ tr = false.
 
-  Lemma check_strict_lax b tag u : check (Strict fl) b tag = Ok u -> check Lax b tag = Ok u.
+  Lemma check_strict_lax b tag u : check (Strict tg fl) b tag = Ok u -> check (Lax tr) b tag = Ok u.
   Proof. destruct u. reflexivity. Qed.
+
+  Lemma fall_strict_lax t tn (st s : state L) :
+    fall L (Strict tg fl) t tn st = Ok s -> fall L (Lax tr) t tn st = Ok s.
+  Proof.
+    unfold fall. destruct tg.
+    - destruct (tn =? t) eqn:E; [|discriminate]. apply Z.eqb_eq in E. subst. destruct tr; auto.
+    - destruct compatible as [C|C]; [discriminate|]. subst tr. auto.
+  Qed.
 
   Ltac sl_bind H :=
     match type of H with
     | obind ?m ?f = Ok _ =>
         let a := fresh "a" in let E := fresh "E" in
         apply obind_ok in H; destruct H as (a & E & H);
-        try (apply check_strict_lax in E); try rewrite E; cbn [obind]
+        try (apply check_strict_lax in E); try (apply fall_strict_lax in E); try rewrite E; cbn [obind]
     end.
 
   Lemma strict_lax_all f :
-    (forall t b st r, run_block L f (Strict fl) t b st = Ok r -> run_block L f Lax t b st = Ok r) /\
-    (forall t s st r, run_stmt L f (Strict fl) t s st = Ok r -> run_stmt L f Lax t s st = Ok r) /\
-    (forall t first k c b rc st r, run_chain L f (Strict fl) t first k c b rc st = Ok r -> run_chain L f Lax t first k c b rc st = Ok r) /\
-    (forall t b ts te lk st r, run_iter L f (Strict fl) t b ts te lk st = Ok r -> run_iter L f Lax t b ts te lk st = Ok r).
+    (forall t b st r, run_block L f (Strict tg fl) t b st = Ok r -> run_block L f (Lax tr) t b st = Ok r) /\
+    (forall t s st r, run_stmt L f (Strict tg fl) t s st = Ok r -> run_stmt L f (Lax tr) t s st = Ok r) /\
+    (forall t first k c b rc st r, run_chain L f (Strict tg fl) t first k c b rc st = Ok r -> run_chain L f (Lax tr) t first k c b rc st = Ok r) /\
+    (forall t b ts te lk st r, run_iter L f (Strict tg fl) t b ts te lk st = Ok r -> run_iter L f (Lax tr) t b ts te lk st = Ok r).
   Proof.
     induction f as [|f (IB & IS & IC & II)].
     - repeat split; intros; discriminate.
-    - repeat split.
+    - split; [|split; [|split]].
       + intros t b st r R. rewrite run_block_S in *. destruct b as [|s b]; auto.
         sl_bind R. sl_bind R. rewrite (IS _ _ _ _ E0). cbn [obind]. destruct (fst a0); auto.
       + intros t s st r R. rewrite run_stmt_S in *.
@@ -1002,8 +1034,8 @@ Section StrictLax.
              rewrite (II _ _ _ _ _ _ _ E4). exact R.
       + intros t first k c b rc st r R. rewrite run_chain_S in *.
         sl_bind R. cbv zeta in *. destruct (Bool.eqb (fst a) (is_if k)).
-        * sl_bind R. sl_bind R. sl_bind R. rewrite (IB _ _ _ _ E2). cbn [obind]. destruct (fst a2); auto.
-          sl_bind R. sl_bind R. exact R.
+        * sl_bind R. destruct first; sl_bind R; sl_bind R; rewrite (IB _ _ _ _ E2); cbn [obind]; (destruct (fst a2); auto);
+            sl_bind R; (destruct rc; sl_bind R; exact R).
         * destruct rc as [|eb|k' c' b' rc']; auto.
           sl_bind R. sl_bind R. rewrite (IB _ _ _ _ E1). cbn [obind]. destruct (fst a1); auto.
           sl_bind R. sl_bind R. exact R.
@@ -1017,7 +1049,7 @@ Section StrictLax.
   Qed.
 
   Theorem strict_lax p st fuel st' :
-    run_struct L fuel (Strict fl) p st = Ok st' -> run_struct L fuel Lax p st = Ok st'.
+    run_struct L fuel (Strict tg fl) p st = Ok st' -> run_struct L fuel (Lax tr) p st = Ok st'.
   Proof.
     unfold run_struct. intros R. apply obind_ok in R. destruct R as (a & E & R).
     rewrite (proj1 (strict_lax_all fuel) _ _ _ _ E). exact R.
